@@ -287,6 +287,8 @@ static void init_s4() {
     PROLOGS.push_back({"<!DOCTYPE r [<!ELEMENT r (c|i|j)*><!ELEMENT c EMPTY><!ENTITY e \"ev\">]>", true, {}});
     PROLOGS.push_back({"<?xml version=\"1.0\" standalone=\"yes\"?><!DOCTYPE r [<!ENTITY e \"ev\"><!ATTLIST r d CDATA \"dv\">]>", true, {}});
     PROLOGS.push_back({"<!DOCTYPE r PUBLIC \"-//P//Q\" \"sub/ext2.dtd\" [<!ENTITY e \"iv\">]>", true, {{"/v/sub/ext2.dtd", "<!ENTITY e \"xv\"><!ENTITY % q SYSTEM \"q.pe\">%q;"}, {"/v/sub/q.pe", "<!ENTITY m \"<i>q</i>\">"}}});
+    // external subset / external PE whose last construct is a reference to an internal parameter entity (no trailing character)
+    PROLOGS.push_back({"<!DOCTYPE r SYSTEM \"pe-end.dtd\">", true, {{"/v/pe-end.dtd", "<!ENTITY e \"pv\"><!ENTITY % p \"<!ELEMENT r ANY><!ATTLIST r d CDATA 'pd'>\">%p;"}}});
     ROOTATTR = {"", " d='o'", " t=' x  y '", "\nf='fx' i='r1'"};
     ITEMS = {"t", " ", "\n", "\r\n", "\r", "\t", "&e;", "&m;", "&n;", "&cr;", "&lt2;", "&x;", "&#13;", "&#10;&#9;", "&#x20AC;", "&#x10000;", "\xC3\xA9",
              "<![CDATA[d]]>", "<![CDATA[]]>", "<![CDATA[<&]]]]>", "<!--k-->", "<?q r?>", "<?q?>", "<c/>", "<c d='y'/>", "<c d='z'/>", "<i>v</i>",
@@ -383,6 +385,10 @@ static void init_s3() {
     bad("pe-missing-external-pe", "<!DOCTYPE r [<!ENTITY % n SYSTEM 'nofile.pe'>%n;]><r/>", true, false);
     bad("missing-external-subset-validating", "<!DOCTYPE r SYSTEM 'nofile.dtd'><r/>", true, false);
     bad("pe-nested-bad-markup", "<!DOCTYPE r [<!ENTITY % k \"<!ENTITY &#37; n '<!BOGUS>'>&#37;n;\">%k;]><r/>", true, false);
+    { DocCase d; d.doc = "<!DOCTYPE r SYSTEM 'k1.dtd'><r/>"; d.label = "ext-subset-ending-in-internal-pe-ref"; d.expect = 1; d.doctype = true; d.ref_usable = true;
+      d.files = {{"/v/k1.dtd", "<!ENTITY % xp1 \"<!--c-->\">%xp1;"}}; CAT.push_back(d); }
+    { DocCase d; d.doc = "<!DOCTYPE r SYSTEM 'k2.dtd'><r>&g;</r>"; d.label = "ext-subset-ending-in-internal-pe-ref-decl"; d.expect = 1; d.doctype = true; d.ref_usable = true;
+      d.files = {{"/v/k2.dtd", "<!ENTITY % xp2 \"<!ENTITY g 'gv'>\">%xp2;"}}; CAT.push_back(d); }
     bad("cond-section-internal", "<!DOCTYPE a [<![INCLUDE[<!ENTITY e 'v'>]]>]><a/>", true);
 }
 static int g_s3_wrap = 3;
